@@ -489,3 +489,12 @@ def r_segflag(ctx):
 def r_charstring(ctx):
     from rules import c11
     c11.charstring_primitive(ctx)
+
+
+@rule('C12', 'R-C12-6', 'prerequisite (the whitespace predicate of the restricted alignment)',
+      'Character::is_whitespace -- consulted by the DP under spaces_insert_delete_only to forbid substitutions and swaps of whitespace -- is '
+      '"every code point is Unicode White_Space" (R-C11-1 re-evaluated): a predicate that looks at the first code point only classifies the cluster '
+      '" \\u{301}" as whitespace, the reference metric allows substituting it, and the computed distance is too large')
+def r_wspred(ctx):
+    from rules import c11
+    c11.r1(ctx)
